@@ -65,6 +65,19 @@ type menv struct {
 	locals map[string]*mval
 	vararg []mval
 	parent *menv
+	// function-level environments only
+	isFn       bool
+	callerLine int // line a level-2 error of this function is attributed to (0: the caller is not Lua code)
+	cdepth     int // pending to-be-closed values of the coroutine when the function was entered
+}
+
+// fn returns the environment of the enclosing function.
+func (e *menv) fn() *menv {
+	x := e
+	for x.parent != nil && !x.isFn {
+		x = x.parent
+	}
+	return x
 }
 
 func (e *menv) lookup(n string) *mval {
@@ -137,7 +150,7 @@ func (m *interp) throw(e *luaErr) {
 			h := *pr[n-1].handler
 			e.handled = true
 			m.feat["msg-handler"] = true
-			res := m.call(h, []mval{e.v}, 0, false)
+			res := m.call(h, []mval{e.v}, 0, 0)
 			if len(res) > 0 {
 				e.v = res[0]
 			} else {
@@ -161,7 +174,7 @@ func (m *interp) run() (outcome string) {
 		}
 		m.abortAll()
 	}()
-	env := &menv{locals: map[string]*mval{}}
+	env := &menv{locals: map[string]*mval{}, isFn: true}
 	c := m.execBlock(m.prog.main, env)
 	vals := []string{}
 	if c.k == cReturn {
@@ -274,7 +287,7 @@ func (m *interp) callClose(v mval, errv mval) {
 		m.feat["close-raises"] = true
 		m.raise(strv(fmt.Sprintf("sim:%d: ce%d", simCloseRaiseLine, t.id)))
 	case 2:
-		m.call(m.globals[fmt.Sprintf("F%d", t.closeArg)], nil, 8, false)
+		m.call(m.globals[fmt.Sprintf("F%d", t.closeArg)], nil, 8, 8)
 	}
 }
 
@@ -362,6 +375,15 @@ func (m *interp) exec(s *stmt, env *menv, pending *[]mval) ctl {
 		return ctl{k: cGoto, label: s.name}
 	case sLabel:
 	case sReturn:
+		if len(s.exps) == 1 && s.exps[0].k == eCall {
+			if root := env.fn(); root.isFn && len(m.cur.cstack) == root.cdepth {
+				// a tail call: the callee takes the place of this function, also for level-2 positions
+				e := s.exps[0]
+				f := m.eval1(e.fn, env, s.line)
+				args := m.evalList(e.args, env, s.line)
+				return ctl{k: cReturn, vals: m.call(f, args, s.line, root.callerLine)}
+			}
+		}
 		return ctl{k: cReturn, vals: m.evalList(s.exps, env, s.line)}
 	case sCallStmt:
 		m.evalMulti(s.exps[0], env, s.line)
@@ -370,12 +392,38 @@ func (m *interp) exec(s *stmt, env *menv, pending *[]mval) ctl {
 		if v.k == vStr && s.level == 1 {
 			v = m.lineErr(s.line, v.s)
 		}
+		if v.k == vStr && s.level == 2 {
+			m.feat["error-level-2"] = true
+			if cl := env.fn().callerLine; cl > 0 {
+				v = m.lineErr(cl, v.s)
+			}
+		}
 		m.feat["error"] = true
 		m.raise(v)
 	case sStorm:
 		m.feat["error-storm"] = true
 	case sRtErr:
 		m.feat["rterr"] = true
+		switch s.n {
+		case 11: // metamethods raising at level 2: the position is that of the code that triggered them
+			m.feat["metamethod-error"] = true
+			m.raise(m.lineErr(s.line, "m901"))
+		case 12:
+			m.feat["metamethod-error"] = true
+			m.raise(m.lineErr(s.line, "m902"))
+		case 13, 14: // a table raised by an arithmetic metamethod arrives as it is
+			m.feat["metamethod-error"] = true
+			m.raise(mval{k: vTbl, i: 903})
+		case 15:
+			m.feat["metamethod-error"] = true
+			m.raise(m.lineErr(s.line, "m904"))
+		case 16:
+			m.feat["metamethod-error"] = true
+			m.raise(m.lineErr(simMTLine, "m905"))
+		case 17:
+			m.feat["metamethod-error"] = true
+			m.raise(mval{})
+		}
 		m.raise(m.lineErr(s.line, "ERR"))
 	}
 	return ctl{}
@@ -465,7 +513,7 @@ func (m *interp) evalMulti(e *expr, env *menv, line int) []mval {
 	case eCall:
 		f := m.eval1(e.fn, env, line)
 		args := m.evalList(e.args, env, line)
-		return m.call(f, args, line, true)
+		return m.call(f, args, line, line)
 	case eBuiltin:
 		args := m.evalList(e.args, env, line)
 		return m.builtin(e.name, args, line)
@@ -475,14 +523,14 @@ func (m *interp) evalMulti(e *expr, env *menv, line int) []mval {
 
 // call calls a function value.  line is the line of the call (for errors raised
 // by the call machinery itself).
-func (m *interp) call(f mval, args []mval, line int, _ bool) []mval {
+func (m *interp) call(f mval, args []mval, line int, callerLine int) []mval {
 	switch f.k {
 	case vFn:
 		fd := m.funcs[f.s]
 		if fd == nil {
 			return m.builtin(f.s, args, line)
 		}
-		env := &menv{locals: map[string]*mval{}}
+		env := &menv{locals: map[string]*mval{}, isFn: true, callerLine: callerLine, cdepth: len(m.cur.cstack)}
 		for i, p := range fd.params {
 			v := mval{}
 			if i < len(args) {
@@ -555,7 +603,7 @@ func (m *interp) builtin(name string, args []mval, line int) []mval {
 					panic(r)
 				}
 			}()
-			vals := m.call(arg(0), fargs, line, true)
+			vals := m.call(arg(0), fargs, line, 0)
 			res = append([]mval{boolv(true)}, vals...)
 		}()
 		return res
@@ -703,7 +751,7 @@ func (m *interp) coMain(co *mco) {
 			out = xfer{kind: "return"}
 			return
 		}
-		vals := m.call(mval{k: vFn, s: co.fn.name}, first.vals, 0, false)
+		vals := m.call(mval{k: vFn, s: co.fn.name}, first.vals, 0, 0)
 		out = xfer{kind: "return", vals: vals}
 	}()
 	co.out <- out
